@@ -8,6 +8,7 @@ CONSTANTS
   MaxCalls = 0
   NewestFirst = TRUE
   RoutesFirst = TRUE
+  OtherForAll = FALSE
   StarWithCreds = FALSE
 INVARIANT OnlyAllowedOrigins
 INVARIANT NoOriginUntouched
